@@ -719,14 +719,16 @@ func handleConnectionBindRequest(req Request, stunMsg *stun.Message) error {
 	// Authentication of the client by the server MUST use the same method
 	// and credentials as for the control connection.
 	//
-	// GetTCPConnection asserts that userName used for auth is same as allocation
-	tcpConn := req.AllocationManager.GetTCPConnection(userID, connectionID)
-	if tcpConn == nil {
+	// A data connection can only be spliced onto a stream transport. Check this
+	// before GetTCPConnection, which marks the connection as bound.
+	stunConn, ok := req.Conn.(*proto.STUNConn)
+	if !ok {
 		return buildAndSendErr(req.Conn, req.SrcAddr, err, badRequestMsg...)
 	}
 
-	stunConn, ok := req.Conn.(*proto.STUNConn)
-	if !ok {
+	// GetTCPConnection asserts that userName used for auth is same as allocation
+	tcpConn := req.AllocationManager.GetTCPConnection(userID, connectionID)
+	if tcpConn == nil {
 		return buildAndSendErr(req.Conn, req.SrcAddr, err, badRequestMsg...)
 	}
 
